@@ -387,6 +387,25 @@ func (fr *Frame) applyContractRes(v ssa.Value, f *ssa.Function, con *Contract, a
 	res := given
 	if res == nil {
 		res = fr.freshResults(f.Signature.Results(), "r:"+shortFuncName(f))
+		if con.Trusted && f.Signature.Results().Len() == 1 {
+			// a trusted callee that returns a pointer to a struct of the module: the pointee is
+			// modelled as a cell of its own with unknown content, so that what the caller then
+			// writes through the pointer is tracked (assumed: it does not alias memory the
+			// caller reads afterwards through another path)
+			if pt, ok := f.Signature.Results().At(0).Type().Underlying().(*types.Pointer); ok {
+				if _, isStruct := pt.Elem().Underlying().(*types.Struct); isStruct {
+					func() {
+						defer func() { recover() }()
+						c := ex.newCell(pt.Elem(), "pointee:"+shortFuncName(f))
+						if init := fr.freshOfType(pt.Elem(), "pointee:"+shortFuncName(f)); init != nil {
+							fr.mem[c] = init
+							res = PtrV{Cell: c, Elem: pt.Elem()}
+							ex.Trusted["pointer returned by "+shortName(con.Key)+" modelled as a separate cell"] = true
+						}
+					}()
+				}
+			}
+		}
 	}
 	if sp := ex.split; sp.on && fr.top && fmt.Sprintf("%s#%d", fr.siteKey(in), fr.ord[in]) == sp.sp.Site {
 		if tv, ok := res.(TV); ok && tv.T.Sort == SInt {
